@@ -104,7 +104,15 @@ func execOp(line string) (res string) {
 			return bad
 		}
 		sig := &bec.Signature{R: Nn(0), S: Nn(1)}
-		return "ok " + hx(sig.Serialise())
+		if sig.R.Cmp(sig.S) == 0 {
+			sig.S = sig.R // one big.Int object in both fields: an in-place update of S would also change R
+		}
+		r0, s0 := new(big.Int).Set(sig.R), new(big.Int).Set(sig.S)
+		out := hx(sig.Serialise())
+		if sig.R.Cmp(r0) != 0 || sig.S.Cmp(s0) != 0 {
+			return "ok " + out + " signature-object-modified"
+		}
+		return "ok " + out
 	case "der.parse", "der.lax":
 		if !argc(1) {
 			return bad
